@@ -8,6 +8,7 @@ Driver entries for C13.
       op = L:<name>:<0|1>   skip command at level L ∈ F (filter) P (prediction) C (correction) M (state model);
                             `~` stands for the empty name
          | p | c            predict / correct on the running belief
+         | H                hand-over: steps move-constructed into new objects held by a new filter
   -> one token per op, preceded by the initial observation:
       init/<flags>/<P>/<C>     r<1|0|T>/<flags>/<P>/<C>     p/<P>     c/<C>
      flags = prediction, state model, exogenous model (`-` when absent);  P = label of what
@@ -77,6 +78,7 @@ def runOps (k : PredKind) : SkipState → List String → Option (List String)
   | st, t :: ts =>
     if t == "p" then (runOps k st ts).map (("p/" ++ obsStr (predObs k st)) :: ·)
     else if t == "c" then (runOps k st ts).map (("c/" ++ corrStr st) :: ·)
+    else if t == "H" then (runOps k (handOver st) ts).map (("h/" ++ obsAll k (handOver st)) :: ·)
     else match parseCmd t with
       | none => none
       | some c =>
